@@ -20,7 +20,9 @@ try {
 }
 print("done");
 '''
-F21_REPLAY = dict(kind='lay', source=F21_SRC, expect_stdout='caught\ndone\n')
+F21_BOUNDARY_SRC = '// Unbounded recursion has to end in a catchable "Stack overflow." error, also when\n// the recursion passes through the callback of a native.\n//\n// `plunge` goes down 253 ordinary frames and then calls Iter.each, a native that runs\n// on a call frame of its own, so that this native is entered when the fiber holds\n// exactly 255 frames (script + plunge(253) .. plunge(0)). Its callback starts a\n// recursion that never ends. No frame using native is called from there on: List.pop\n// and Iter.first do not take a frame, Iter.first drives a map iterator prepared\n// beforehand, whose callback is `step` again.\n\nlet pool = [];\n\nfn step(x) {\n  return pool.pop().first();\n}\n\nfor i in 20000.times() {\n  pool.push([1].iter().map(step));\n}\n\nfn plunge(n) {\n  if n == 0 {\n    [1].iter().each(step);\n    return nil;\n  }\n  return plunge(n - 1);\n}\n\ntry {\n  plunge(253);\n  print("returned");\n} catch e: Error {\n  print(e.message);\n}\n'
+F21_REPLAY = dict(kind='lay', source=F21_SRC, expect_stdout='caught\ndone\n',
+                  alternatives=[dict(kind='lay', source=F21_BOUNDARY_SRC, expect_stdout='Stack overflow.\n', bad_re='overflowed its stack')])
 
 
 def _depth_kernel(res, fname, mk_args, label):
